@@ -69,7 +69,8 @@ func (fv *FnV) evalCall(st *State, call *ast.CallExpr) []Val {
 		// call of a function value (callback): uninterpreted, assumed pure
 		sig, _ := o.Type().Underlying().(*types.Signature)
 		for _, a := range call.Args {
-			fv.eval(st, a)
+			v := fv.eval(st, a)
+			fv.havocPointee(st, v)
 		}
 		fv.tag("callbacks-pure")
 		if sig == nil {
@@ -89,6 +90,24 @@ func (fv *FnV) evalCall(st *State, call *ast.CallExpr) []Val {
 	}
 	fv.unsupported(call, "call "+exprString(fv.prog.Fset, call.Fun))
 	return nil
+}
+
+// havocPointee: a callback may write the object a heap pointer argument refers to
+func (fv *FnV) havocPointee(st *State, v Val) {
+	t := fv.smt.resolve(v.Ty)
+	pt, ok := t.Underlying().(*types.Pointer)
+	if !ok || !fv.smt.isHeapPtr(pt) {
+		return
+	}
+	stt, ok := pt.Elem().Underlying().(*types.Struct)
+	if !ok {
+		return
+	}
+	for i := 0; i < stt.NumFields(); i++ {
+		key := fv.heapKey(pt.Elem(), stt.Field(i).Name())
+		fv.heapGet(st, key)
+		st.heap[key] = fv.fresh("H_"+key, fv.heapSort(key))
+	}
 }
 
 func (fv *FnV) havocResults(st *State, sig *types.Signature) []Val {
@@ -167,6 +186,11 @@ func (fv *FnV) evalConversion(st *State, call *ast.CallExpr, to types.Type) Val 
 	}
 	fv.unsupported(call, "conversion "+from.String()+" -> "+to.String())
 	return Val{fv.fresh("conv", fv.smt.sortOf(to)), to}
+}
+
+func (fv *FnV) declareQuant() {
+	fv.uninterp("quant", []string{"Real"}, "Int")
+	fv.smt.declareFun("ax_quant", "(assert (forall ((x Real)) (! (and (<= (- x 0.5) (to_real (quant x))) (<= (to_real (quant x)) (+ x 0.5)) (=> (is_int x) (= (to_real (quant x)) x))) :pattern ((quant x)))))")
 }
 
 func (fv *FnV) declareI2F() {
@@ -430,8 +454,7 @@ func (fv *FnV) evalExternal(st *State, call *ast.CallExpr, o *types.Func) []Val 
 	case "decimal.(Int64)":
 		// Int64(scale 0): whole part rounded half-to-even (assumed contract "quant")
 		fv.tag("decimal-contract")
-		fv.uninterp("quant", []string{"Real"}, "Int")
-		fv.smt.declareFun("ax_quant", "(assert (forall ((x Real)) (! (and (<= (- x 0.5) (to_real (quant x))) (<= (to_real (quant x)) (+ x 0.5)) (=> (is_int x) (= (to_real (quant x)) x))) :pattern ((quant x)))))")
+		fv.declareQuant()
 		return []Val{{fmt.Sprintf("(quant %s)", a(0)), types.Typ[types.Int64]}, {"0", types.Typ[types.Int64]}, {"true", types.Typ[types.Bool]}}
 	case "sort.Slice", "slices.SortFunc", "sort.SliceStable":
 		// in-place sort: the slice keeps its length, elements are permuted
@@ -510,10 +533,22 @@ func (fv *FnV) evalSpecCall(st *State, call *ast.CallExpr, name string, o *types
 		body := fv.eval(st, fl.Body.List[0].(*ast.ReturnStmt).Results[0])
 		delete(sf.cur, pobj)
 		delete(sf.old, pobj)
-		if name == "__forall" {
-			return Val{fmt.Sprintf("(forall ((%s Int)) (=> (and (<= %s %s) (< %s %s)) %s))", bv, lo.T, bv, bv, hi.T, body.T), rt}
+		pats := ""
+		if !fv.noName && !fv.noPatterns {
+			pats = selectPatterns(body.T, bv)
 		}
-		return Val{fmt.Sprintf("(exists ((%s Int)) (and (<= %s %s) (< %s %s) %s))", bv, lo.T, bv, bv, hi.T, body.T), rt}
+		if name == "__forall" {
+			inner := fmt.Sprintf("(=> (and (<= %s %s) (< %s %s)) %s)", lo.T, bv, bv, hi.T, body.T)
+			if pats != "" {
+				inner = "(! " + inner + " " + pats + ")"
+			}
+			return Val{fmt.Sprintf("(forall ((%s Int)) %s)", bv, inner), rt}
+		}
+		inner := fmt.Sprintf("(and (<= %s %s) (< %s %s) %s)", lo.T, bv, bv, hi.T, body.T)
+		if pats != "" {
+			inner = "(! " + inner + " " + pats + ")"
+		}
+		return Val{fmt.Sprintf("(exists ((%s Int)) %s)", bv, inner), rt}
 	case "__forallInt":
 		fl := call.Args[0].(*ast.FuncLit)
 		pid := fl.Type.Params.List[0].Names[0]
@@ -574,6 +609,17 @@ func (fv *FnV) evalSpecCall(st *State, call *ast.CallExpr, name string, o *types
 		return Val{fmt.Sprintf("(* %s %s)", a.T, b.T), rt}
 	case "mathInt":
 		return Val{fv.eval(st, call.Args[0]).T, rt}
+	case "quant":
+		a := fv.eval(st, call.Args[0])
+		fv.declareQuant()
+		return Val{fmt.Sprintf("(quant %s)", a.T), rt}
+	case "pow10":
+		a := fv.eval(st, call.Args[0])
+		fv.uninterp("m_pow", []string{"Real", "Real"}, "Real")
+		return Val{fmt.Sprintf("(m_pow 10.0 (to_real %s))", a.T), rt}
+	case "truncF":
+		a := fv.eval(st, call.Args[0])
+		return Val{fmt.Sprintf("(ite (>= %s 0.0) (to_int %s) (- (to_int (- %s))))", a.T, a.T, a.T), rt}
 	case "same":
 		a := fv.eval(st, call.Args[0])
 		b := fv.eval(st, call.Args[1])
@@ -687,7 +733,13 @@ func (fv *FnV) defineSpecFunc(name string, sfd *ast.FuncDecl, o *types.Func) {
 	if rec {
 		fv.smt.addFun(sname, fmt.Sprintf("(declare-fun %s (%s) %s)", sname, strings.Join(sorts, " "), ret))
 		app := "(" + sname + " " + strings.Join(names, " ") + ")"
-		fv.smt.addFun("def_"+sname, fmt.Sprintf("(assert (forall (%s) (! (= %s %s) :pattern (%s))))", strings.Join(formals, " "), app, body.T, app))
+		// guarded form (one implication per top-level ite branch) so that relevancy stops the
+		// unfolding at the base case instead of looping on f(k-1), f(k-2), ...
+		if c, a, b, ok := splitIte(body.T); ok {
+			fv.smt.addFun("def_"+sname, fmt.Sprintf("(assert (forall (%s) (! (and (=> %s (= %s %s)) (=> (not %s) (= %s %s))) :pattern (%s))))", strings.Join(formals, " "), c, app, a, c, app, b, app))
+		} else {
+			fv.smt.addFun("def_"+sname, fmt.Sprintf("(assert (forall (%s) (! (= %s %s) :pattern (%s))))", strings.Join(formals, " "), app, body.T, app))
+		}
 	} else {
 		fv.smt.addFun(sname, fmt.Sprintf("(define-fun %s (%s) %s %s)", sname, strings.Join(formals, " "), ret, body.T))
 	}
@@ -803,6 +855,50 @@ func (fv *FnV) evalClause(st *State, cl *Clause, li *loopInfo, extra map[string]
 	return fv.evalWithEnv(st, cl, cur, old, oldSt)
 }
 
+// evalClauseStep: loop step clause; old(e) denotes the value at the start of the iteration.
+func (fv *FnV) evalClauseStep(st *State, cl *Clause, li *loopInfo, start *State) string {
+	fr := fv.cur()
+	cur := map[string]Val{}
+	old := map[string]Val{}
+	for name, obj := range fv.frameVars(fr) {
+		if v, ok := st.vars[obj]; ok {
+			cur[name] = v
+		}
+		if v, ok := start.vars[obj]; ok {
+			old[name] = v
+		}
+	}
+	var pos token.Pos
+	switch x := li.stmt.(type) {
+	case *ast.ForStmt:
+		pos = x.Body.Lbrace + 1
+	case *ast.RangeStmt:
+		pos = x.Body.Lbrace + 1
+	}
+	scope := fv.prog.Pkg.Scope().Innermost(pos)
+	for _, p := range fv.clauseParams(cl) {
+		if _, ok := cur[p.Name()]; ok {
+			continue
+		}
+		if p.Name() == "_i" && li.idxObj != nil {
+			cur["_i"] = st.vars[li.idxObj]
+			old["_i"] = start.vars[li.idxObj]
+			continue
+		}
+		if scope != nil {
+			if _, obj := scope.LookupParent(p.Name(), pos); obj != nil {
+				if v, ok := st.vars[obj]; ok {
+					cur[p.Name()] = v
+				}
+				if v, ok := start.vars[obj]; ok {
+					old[p.Name()] = v
+				}
+			}
+		}
+	}
+	return fv.evalWithEnv(st, cl, cur, old, start)
+}
+
 // evalClauseAt evaluates a clause at a program point: locals resolved by scope lookup.
 func (fv *FnV) evalClauseAt(st *State, cl *Clause, pos token.Pos) string {
 	fr := fv.cur()
@@ -879,4 +975,84 @@ func (fv *FnV) frameVars(fr *frame) map[string]types.Object {
 	add(fr.fd.Type.Params, "_p")
 	add(fr.fd.Type.Results, "_r")
 	return out
+}
+
+// splitIte decomposes "(ite c a b)" into its three operands.
+func splitIte(t string) (string, string, string, bool) {
+	if !strings.HasPrefix(t, "(ite ") || !strings.HasSuffix(t, ")") {
+		return "", "", "", false
+	}
+	inner := t[5 : len(t)-1]
+	var parts []string
+	depth, start := 0, 0
+	for i := 0; i <= len(inner); i++ {
+		if i == len(inner) || (inner[i] == ' ' && depth == 0) {
+			if i > start {
+				parts = append(parts, inner[start:i])
+			}
+			start = i + 1
+			continue
+		}
+		if inner[i] == '(' {
+			depth++
+		} else if inner[i] == ')' {
+			depth--
+		}
+	}
+	if len(parts) != 3 {
+		return "", "", "", false
+	}
+	return parts[0], parts[1], parts[2], true
+}
+
+// selectPatterns: instantiation patterns for a bound variable: every term (select T v)
+// in the body whose index is exactly the bound variable and whose array term T does not
+// contain another quantified variable of an enclosing/inner binder.
+func selectPatterns(body, bv string) string {
+	needle := " " + bv + ")"
+	seen := map[string]bool{}
+	var pats []string
+	for i := 0; i+len(needle) <= len(body); i++ {
+		if body[i:i+len(needle)] != needle {
+			continue
+		}
+		end := i + len(needle)
+		// walk back to the matching "(" of this application
+		depth := 0
+		j := i
+		for ; j >= 0; j-- {
+			if body[j] == ')' {
+				depth++
+			} else if body[j] == '(' {
+				if depth == 0 {
+					break
+				}
+				depth--
+			}
+		}
+		if j < 0 {
+			continue
+		}
+		term := body[j:end]
+		if !strings.HasPrefix(term, "(select ") {
+			continue
+		}
+		if strings.Contains(term[:len(term)-len(needle)], "!q") {
+			continue // array term depends on another bound variable
+		}
+		bad := false
+		for _, op := range []string{"(and ", "(or ", "(not ", "(=> ", "(= ", "(< ", "(<= ", "(> ", "(>= ", "(ite ", "(+ ", "(- ", "(* "} {
+			if strings.Contains(term, op) {
+				bad = true
+			}
+		}
+		if bad {
+			continue
+		}
+		if !seen[term] && len(pats) < 4 {
+			seen[term] = true
+			pats = append(pats, ":pattern ("+term+")")
+		}
+	}
+	return strings.Join(pats, " ")
 }
